@@ -81,6 +81,12 @@ func run(o options) int {
 		}
 		results = append(results, verifyFunc(w, fi, fc, false))
 	}
+	for _, lm := range w.cs.Lemmas {
+		if lm.Prop != o.prop || (o.fn != "" && !strings.Contains(lm.Name, o.fn)) {
+			continue
+		}
+		results = append(results, verifyLemma(w, lm))
+	}
 	genT := time.Since(start) - loadT
 	outDir := filepath.Join(o.verif, "out", "smt", o.prop)
 	os.RemoveAll(outDir)
